@@ -55,6 +55,7 @@ Slot order (the order of ``slots`` and of ``Evo.agent_locs`` in Coq MUST agree):
 from __future__ import annotations
 
 import copy
+import dataclasses
 import hashlib
 import json
 import random
@@ -74,6 +75,8 @@ MULTI = {"MADDPG", "MATD3", "IPPO"}
 CONTINUOUS = {"DDPG", "TD3"}
 BANDIT = {"NeuralUCB", "NeuralTS"}
 SHARE_CAPABLE = {"DDPG", "TD3", "PPO"}
+# algorithms whose networks accept encoder_cls="ResNet" with the engine's image observations (net_config kind "resnet")
+RESNET_ALGOS = ["DQN", "CQN", "DDPG", "TD3", "PPO", "IPPO"]
 FAMILIES = ["vector", "image", "dict", "discrete"]
 AGENT_IDS = ["agent_0", "other_0"]
 BATCH = 4
@@ -110,6 +113,13 @@ def net_config_for(kind, family):
     """partial configurations on purpose (R20): only some keys given"""
     if kind == "none":
         return None
+    if kind == "resnet":
+        # custom encoder selected by alias (image observations only): EvolvableResNet, channel sizes small enough
+        # for add_channel / remove_channel / add_block / remove_block to have room in both directions
+        assert family == "image", "the ResNet configuration is for image observations"
+        return {"encoder_cls": "ResNet",
+                "encoder_config": {"input_shape": (1, 6, 6), "channel_size": 8, "kernel_size": 3, "stride_size": 1,
+                                   "num_blocks": 1, "min_channel_size": 4, "max_channel_size": 64, "max_blocks": 2}}
     if family == "vector" or family == "discrete":
         enc = {"hidden_size": [6]}
         if kind == "full":
@@ -534,8 +544,26 @@ def _descr(m):
             return int(d)
         if isinstance(d, (np.floating,)):
             return float(d)
+        if dataclasses.is_dataclass(d) and not isinstance(d, type):
+            return {"__cls__": type(d).__name__, **clean(dataclasses.asdict(d))}
         return type(d).__name__ + ":" + str(d)
-    return json.dumps([type(m).__name__, clean(m.init_dict)], sort_keys=True)
+    desc = clean(m.init_dict)
+    _normalise_multi_agent_block_type(desc)
+    return json.dumps([type(m).__name__, desc], sort_keys=True)
+
+
+def _normalise_multi_agent_block_type(desc):
+    """Multi-agent networks over Dict/Tuple observations: EvolvableNetwork.modify_multi_agent_config sets
+    encoder_config["cnn_config"]["block_type"] = "Conv3d" whenever a cnn_config is present, i.e. on EVERY rebuild from an
+    init dict, whereas a network first built from a configuration without cnn_config carries the default "Conv2d" in
+    its (then unused or immediately overridden) sub-configuration.  The two describe the same architecture: a
+    multi-agent network never builds a 2-d CNN for a Dict/Tuple sub-space (MADDPG/MATD3 even require an explicit
+    cnn_config when there is an image sub-space).  The descriptor therefore reports the effective value."""
+    if not isinstance(desc, dict) or desc.get("n_agents") is None:
+        return
+    enc = desc.get("encoder_config")
+    if isinstance(enc, dict) and isinstance(enc.get("cnn_config"), dict) and "block_type" in enc["cnn_config"]:
+        enc["cnn_config"]["block_type"] = "Conv3d"
 
 
 def arch_descr(a, n):
